@@ -3,7 +3,7 @@
   equal the formulas the encoder cites offsets with, every out-of-band group sits at its cited
   offset, the directory serves the core stream of each type (extras of the same type are overridden).
 -/
-import MdProofs.Lemmas.EncodeHandles
+import MdProofs.Lemmas.EncodeMaps
 import MdProofs.Lemmas.BytesStreams
 namespace MdModel.Encode
 open MdModel MdModel.Dump MdModel.Gen.Layouts MdModel.Gen.LayoutsC02
@@ -44,39 +44,63 @@ theorem mem_optList {α β : Type} {o : Option α} {g : α → β} {b : β} :
 theorem optList_sublist_const {α β : Type} (o : Option α) (t : β) : List.Sublist (optList o (fun _ => t)) [t] := by
   cases o <;> simp [optList]
 
+theorem encThreadList_length (e : Endian) (pad : Bool) (off : Nat) (ts : List MThread) :
+    (encThreadList e pad off ts).length = listHeaderSize pad + 48 * ts.length := by
+  have h48 : Layout.size MINIDUMP_THREAD = 48 := by decide
+  simp [encThreadList, listHeader_length, threadRecs_length, h48]; omega
+
+theorem encModuleList_length (e : Endian) (pad : Bool) (off : Nat) (ms : List MModule) :
+    (encModuleList e pad off ms).length = listHeaderSize pad + 108 * ms.length := by
+  have h108 : Layout.size MINIDUMP_MODULE = 108 := by decide
+  simp [encModuleList, listHeader_length, moduleRecs_length, h108]; omega
+
+theorem encMemoryList_length (e : Endian) (pad : Bool) (off : Nat) (rs : List MRegion) :
+    (encMemoryList e pad off rs).length = listHeaderSize pad + 16 * rs.length := by
+  have h16 : Layout.size MINIDUMP_MEMORY_DESCRIPTOR = 16 := by decide
+  simp [encMemoryList, listHeader_length, memRecs_length, h16]; omega
+
+theorem encMemory64List_length (e : Endian) (off : Nat) (rs : List MRegion) :
+    (encMemory64List e off rs).length = 16 + 16 * rs.length := by
+  have h16' : Layout.size MINIDUMP_MEMORY_DESCRIPTOR64 = 16 := by decide
+  simp [encMemory64List, mem64Recs, h16']; omega
+
+theorem encMemInfoList_length (e : Endian) (is : List MMemInfo) : (encMemInfoList e is).length = 12 + 48 * is.length := by
+  have h48' : Layout.size MINIDUMP_MEMORY_INFO = 48 := by decide
+  simp [encMemInfoList, exListHeader, h48']; omega
+
+theorem encThreadNames_length (e : Endian) (pad : Bool) (off : Nat) (ns : List (Nat × List Nat)) :
+    (encThreadNames e pad off ns).length = listHeaderSize pad + 12 * ns.length := by
+  have h12 : Layout.size MINIDUMP_THREAD_NAME = 12 := by decide
+  simp [encThreadNames, listHeader_length, nameRecs_length, h12]; omega
+
+theorem encUnloadedList_length (e : Endian) (off : Nat) (us : List MUnloaded) :
+    (encUnloadedList e off us).length = 12 + 24 * us.length := by
+  have h24 : Layout.size MINIDUMP_UNLOADED_MODULE = 24 := by decide
+  simp [encUnloadedList, exListHeader, unloadedRecs_length, h24]; omega
+
+theorem encException_length (e : Endian) (off : Nat) (x : MException) : (encException e off x).length = 168 := by
+  have h168 : Layout.size MINIDUMP_EXCEPTION_STREAM = 168 := by decide
+  simp [encException, h168]
+
+theorem encSysInfo_length (e : Endian) (off : Nat) (x : MSysInfo) : (encSysInfo e off x).length = 56 := by
+  have h56 : Layout.size SYSTEM_INFO_LAYOUT = 56 := by decide
+  simp [encSysInfo, h56]
+
+theorem encMiscInfo_length (e : Endian) (x : MMiscInfo) : (encMiscInfo e x).length = miscInfoSize x := by
+  simp [encMiscInfo, miscInfoSize]
+
+theorem encHandleData_length (e : Endian) (off : Nat) (x : MHandleData) : (encHandleData e off x).length = handleDataSize x := by
+  simp [encHandleData, handleDataSize, handleRecs_length, handleLayout_size,
+    show Layout.size MINIDUMP_HANDLE_DATA_STREAM = 16 by decide, Nat.mul_comm]
+
 /-- the sizes the encoder computes offsets with are the sizes of the streams it writes -/
 theorem coreStreams_sizes (m : DumpModel) (e : Endian) (f : MemForm) :
     (coreStreams m e f).map (fun x => (x.1, x.2.length)) = coreStreamSizes m f := by
-  have h48 : Layout.size MINIDUMP_THREAD = 48 := by decide
-  have h108 : Layout.size MINIDUMP_MODULE = 108 := by decide
-  have h16 : Layout.size MINIDUMP_MEMORY_DESCRIPTOR = 16 := by decide
-  have h16' : Layout.size MINIDUMP_MEMORY_DESCRIPTOR64 = 16 := by decide
-  have h48' : Layout.size MINIDUMP_MEMORY_INFO = 48 := by decide
-  have h12 : Layout.size MINIDUMP_THREAD_NAME = 12 := by decide
-  have h24 : Layout.size MINIDUMP_UNLOADED_MODULE = 24 := by decide
-  have h168 : Layout.size MINIDUMP_EXCEPTION_STREAM = 168 := by decide
-  have h56 : Layout.size SYSTEM_INFO_LAYOUT = 56 := by decide
   unfold coreStreams coreStreamSizes
-  simp only [List.map_append, List.map_cons, List.map_nil, optList_map]
-  congr 1
-  · congr 1
-    · congr 1
-      · congr 1
-        · simp only [List.cons.injEq, Prod.mk.injEq, true_and, and_true]
-          refine ⟨?_, ?_, ?_, ?_, ?_, ?_⟩
-          · simp [encThreadList, listHeader_length, threadRecs_length, h48]; omega
-          · simp [encModuleList, listHeader_length, moduleRecs_length, h108]; omega
-          · cases f
-            · simp [encMemoryList, listHeader_length, memRecs_length, h16]; omega
-            · simp [encMemory64List, mem64Recs, h16']; omega
-          · simp [encMemInfoList, exListHeader, h48']; omega
-          · simp [encThreadNames, listHeader_length, nameRecs_length, h12]; omega
-          · simp [encUnloadedList, exListHeader, unloadedRecs_length, h24]; omega
-        · simp [encException, h168]
-      · simp [encSysInfo, h56]
-    · simp [encMiscInfo, miscInfoSize]
-  · simp [encHandleData, handleDataSize, handleRecs_length, handleLayout_size,
-      show Layout.size MINIDUMP_HANDLE_DATA_STREAM = 16 by decide, Nat.mul_comm]
+  simp only [List.map_append, List.map_cons, List.map_nil, optList_map, encThreadList_length, encModuleList_length,
+    encMemInfoList_length, encThreadNames_length, encUnloadedList_length, encException_length, encSysInfo_length,
+    encMiscInfo_length, encHandleData_length]
+  cases f <;> simp only [encMemoryList_length, encMemory64List_length]
 
 theorem allStreams_sizes (m : DumpModel) (e : Endian) (f : MemForm) :
     (allStreams m e f).map (fun x => (x.1, x.2.length)) = streamSizes m f := by
@@ -193,6 +217,7 @@ structure WellFormed (m : DumpModel) (f : MemForm) : Prop where
   sysInfo : ∀ x, m.sysInfo = some x → SysInfoFits x
   miscInfo : ∀ x, m.miscInfo = some x → MiscFits x
   handles : ∀ x, m.handles = some x → ∀ h ∈ x.handles, HandleFits h
+  linuxMaps : ∀ x, m.linuxMaps = some x → ∀ en ∈ x, MapEntryFits en
   extra : ∀ x ∈ m.extra, x.1 ∈ coreTypes m f
 
 /-- the types of the six streams always present -/
@@ -202,12 +227,12 @@ def fixedTypes (f : MemForm) : List Nat :=
 
 /-- every type the encoder can emit, in its order -/
 def allTypes (f : MemForm) : List Nat :=
-  fixedTypes f ++ [ST_EXCEPTION] ++ [ST_SYSTEM_INFO] ++ [ST_MISC_INFO] ++ [ST_HANDLE_DATA_STREAM]
+  fixedTypes f ++ [ST_EXCEPTION] ++ [ST_SYSTEM_INFO] ++ [ST_MISC_INFO] ++ [ST_HANDLE_DATA_STREAM] ++ [ST_LINUX_MAPS]
 
 theorem coreTypes_eq (m : DumpModel) (f : MemForm) :
     coreTypes m f = fixedTypes f ++ optList m.exception (fun _ => ST_EXCEPTION) ++
       optList m.sysInfo (fun _ => ST_SYSTEM_INFO) ++ optList m.miscInfo (fun _ => ST_MISC_INFO) ++
-      optList m.handles (fun _ => ST_HANDLE_DATA_STREAM) := by
+      optList m.handles (fun _ => ST_HANDLE_DATA_STREAM) ++ optList m.linuxMaps (fun _ => ST_LINUX_MAPS) := by
   unfold coreTypes coreStreamSizes fixedTypes
   simp only [List.map_append, List.map_cons, List.map_nil, optList_map]
   cases f <;> rfl
@@ -215,8 +240,8 @@ theorem coreTypes_eq (m : DumpModel) (f : MemForm) :
 theorem coreTypes_sublist (m : DumpModel) (f : MemForm) : List.Sublist (coreTypes m f) (allTypes f) := by
   rw [coreTypes_eq]
   unfold allTypes
-  exact ((((List.Sublist.refl _).append (optList_sublist_const _ _)).append (optList_sublist_const _ _)).append
-    (optList_sublist_const _ _)).append (optList_sublist_const _ _)
+  exact (((((List.Sublist.refl _).append (optList_sublist_const _ _)).append (optList_sublist_const _ _)).append
+    (optList_sublist_const _ _)).append (optList_sublist_const _ _)).append (optList_sublist_const _ _)
 
 theorem allTypes_nodup (f : MemForm) : (allTypes f).Nodup := by cases f <;> decide
 
@@ -365,10 +390,14 @@ theorem core_handles {x : MHandleData} (h : m.handles = some x) : lastOf ST_HAND
     some (encHandleData e (oobOffsets m f).handles x) :=
   core_of_mem m e f (by simp [coreStreams, optList, h])
 
+theorem core_linuxMaps {x : List MapEntry} (h : m.linuxMaps = some x) : lastOf ST_LINUX_MAPS (coreStreams m e f) =
+    some (encLinuxMaps x) :=
+  core_of_mem m e f (by simp [coreStreams, optList, h])
+
 /-- the optional streams: (present?, type) -/
 def optTypes (m : DumpModel) : List (Bool × Nat) :=
   [(m.exception.isSome, ST_EXCEPTION), (m.sysInfo.isSome, ST_SYSTEM_INFO), (m.miscInfo.isSome, ST_MISC_INFO),
-   (m.handles.isSome, ST_HANDLE_DATA_STREAM)]
+   (m.handles.isSome, ST_HANDLE_DATA_STREAM), (m.linuxMaps.isSome, ST_LINUX_MAPS)]
 
 theorem mem_optList_const {α : Type} {o : Option α} {t x : Nat} : x ∈ optList o (fun _ => t) ↔ (o.isSome = true ∧ x = t) := by
   cases o <;> simp [optList]
@@ -378,18 +407,20 @@ theorem mem_coreTypes {t : Nat} : t ∈ coreTypes m f ↔ t ∈ fixedTypes f ∨
   simp only [List.mem_append, mem_optList_const, optTypes, List.mem_cons, Prod.mk.injEq, List.not_mem_nil, or_false,
     or_assoc]
   constructor
-  · rintro (h | ⟨h1, h2⟩ | ⟨h1, h2⟩ | ⟨h1, h2⟩ | ⟨h1, h2⟩)
+  · rintro (h | ⟨h1, h2⟩ | ⟨h1, h2⟩ | ⟨h1, h2⟩ | ⟨h1, h2⟩ | ⟨h1, h2⟩)
     · exact .inl h
     · exact .inr (.inl ⟨h1.symm, h2⟩)
     · exact .inr (.inr (.inl ⟨h1.symm, h2⟩))
     · exact .inr (.inr (.inr (.inl ⟨h1.symm, h2⟩)))
-    · exact .inr (.inr (.inr (.inr ⟨h1.symm, h2⟩)))
-  · rintro (h | ⟨h1, h2⟩ | ⟨h1, h2⟩ | ⟨h1, h2⟩ | ⟨h1, h2⟩)
+    · exact .inr (.inr (.inr (.inr (.inl ⟨h1.symm, h2⟩))))
+    · exact .inr (.inr (.inr (.inr (.inr ⟨h1.symm, h2⟩))))
+  · rintro (h | ⟨h1, h2⟩ | ⟨h1, h2⟩ | ⟨h1, h2⟩ | ⟨h1, h2⟩ | ⟨h1, h2⟩)
     · exact .inl h
     · exact .inr (.inl ⟨h1.symm, h2⟩)
     · exact .inr (.inr (.inl ⟨h1.symm, h2⟩))
     · exact .inr (.inr (.inr (.inl ⟨h1.symm, h2⟩)))
-    · exact .inr (.inr (.inr (.inr ⟨h1.symm, h2⟩)))
+    · exact .inr (.inr (.inr (.inr (.inl ⟨h1.symm, h2⟩))))
+    · exact .inr (.inr (.inr (.inr (.inr ⟨h1.symm, h2⟩))))
 
 theorem no_memory64_in_mem : ST_MEMORY64_LIST ∉ coreTypes m .mem := by
   intro h
@@ -404,28 +435,35 @@ theorem no_exception (h : m.exception = none) : ST_EXCEPTION ∉ coreTypes m f :
   rintro (h0 | h1)
   · cases f <;> exact absurd h0 (by decide)
   · simp [optTypes, h, ST_EXCEPTION, ST_SYSTEM_INFO, ST_SystemInfoStream, ST_MISC_INFO, ST_MiscInfoStream,
-      ST_HANDLE_DATA_STREAM, ST_HandleDataStream] at h1
+      ST_HANDLE_DATA_STREAM, ST_HandleDataStream, ST_LINUX_MAPS, ST_LinuxMaps] at h1
 
 theorem no_sysInfo (h : m.sysInfo = none) : ST_SYSTEM_INFO ∉ coreTypes m f := by
   rw [mem_coreTypes]
   rintro (h0 | h1)
   · cases f <;> exact absurd h0 (by decide)
   · simp [optTypes, h, ST_EXCEPTION, ST_SYSTEM_INFO, ST_SystemInfoStream, ST_MISC_INFO, ST_MiscInfoStream,
-      ST_HANDLE_DATA_STREAM, ST_HandleDataStream] at h1
+      ST_HANDLE_DATA_STREAM, ST_HandleDataStream, ST_LINUX_MAPS, ST_LinuxMaps] at h1
 
 theorem no_miscInfo (h : m.miscInfo = none) : ST_MISC_INFO ∉ coreTypes m f := by
   rw [mem_coreTypes]
   rintro (h0 | h1)
   · cases f <;> exact absurd h0 (by decide)
   · simp [optTypes, h, ST_EXCEPTION, ST_SYSTEM_INFO, ST_SystemInfoStream, ST_MISC_INFO, ST_MiscInfoStream,
-      ST_HANDLE_DATA_STREAM, ST_HandleDataStream] at h1
+      ST_HANDLE_DATA_STREAM, ST_HandleDataStream, ST_LINUX_MAPS, ST_LinuxMaps] at h1
 
 theorem no_handles (h : m.handles = none) : ST_HANDLE_DATA_STREAM ∉ coreTypes m f := by
   rw [mem_coreTypes]
   rintro (h0 | h1)
   · cases f <;> exact absurd h0 (by decide)
   · simp [optTypes, h, ST_EXCEPTION, ST_SYSTEM_INFO, ST_SystemInfoStream, ST_MISC_INFO, ST_MiscInfoStream,
-      ST_HANDLE_DATA_STREAM, ST_HandleDataStream] at h1
+      ST_HANDLE_DATA_STREAM, ST_HandleDataStream, ST_LINUX_MAPS, ST_LinuxMaps] at h1
+
+theorem no_linuxMaps (h : m.linuxMaps = none) : ST_LINUX_MAPS ∉ coreTypes m f := by
+  rw [mem_coreTypes]
+  rintro (h0 | h1)
+  · cases f <;> exact absurd h0 (by decide)
+  · simp [optTypes, h, ST_EXCEPTION, ST_SYSTEM_INFO, ST_SystemInfoStream, ST_MISC_INFO, ST_MiscInfoStream,
+      ST_HANDLE_DATA_STREAM, ST_HandleDataStream, ST_LINUX_MAPS, ST_LinuxMaps] at h1
 
 end core
 
